@@ -1,7 +1,9 @@
 (* Extraction of the C10 model for the correspondence check.  ExtrOcamlBasic only: bool, option,
    list, prod, unit, sumbool map to OCaml's; nat stays the extracted inductive. *)
 From Coq Require Import Extraction ExtrOcamlBasic.
-From PV Require Import Mro.Model.
+From PV Require Import Mro.Model Mro.Attr.
 Extraction Language OCaml.
 Extraction "mro_model.ml" merge_py_gen mem merge_c mros_py mros_c get_bases_in_mro class_mro_py class_mro_c
-                          lookup_py lookup_c.
+                          lookup_py lookup_c
+                          super_py super_c read_inst_py read_inst_c gmros_py gmros_c gmros_c_py_reading gproject
+                          same_reading_table super_chain_py super_chain_c mro_of table_mros.
